@@ -1087,6 +1087,13 @@ fn scenario_replica(sc: &str) -> Result<Violations, String> {
         chk(&mut v, "C19.replicas-agree", okk || p[0] != "newer");
         chk(&mut v, "C02.replicas-agree", okk || p[0] != "none");
         chk(&mut v, "C05.live-replication-converges", okk);
+        chk(&mut v, "C04.copies-applied-in-order-agree", okk);
+        // ... and, without a strategy (the resolution of `newer` compares node-local op ids), the same version
+        if okk && p[0] == "none" && live(&a).is_some() {
+            let ver = |w: &World| -> Option<i32> { let m = w.dbs.map.read().unwrap(); m.get("d").and_then(|db| db.get_value(k.to_string())).map(|e| e.version) };
+            if std::env::var("VERIF_TRACE").is_ok() && ver(&pw) != ver(&sw) { eprintln!("key {}: primary version {:?} secondary {:?}", k, ver(&pw), ver(&sw)); }
+            chk(&mut v, "C04.copies-applied-in-order-agree-on-versions", ver(&pw) == ver(&sw));
+        }
     }
     Ok(v)
 }
@@ -1288,6 +1295,27 @@ fn scenario_traffic_cluster(strategy: &str, steps: &[(&str, &str)]) -> Result<Vi
             if strategy == "newer" { chk(&mut v, "C19.replicas-agree", same); }
             if strategy == "none" { chk(&mut v, "C02.replicas-agree", same); }
             if strategy == "arbiter" && steps.iter().all(|(_, cmd)| cmd.starts_with("resolve")) { chk(&mut v, "C13.resolution-reaches-every-node", same); }
+        }
+    }
+    // C04 (bounded stand-in): once the exchange has died out, every key of every database reads the same on both nodes - value, live / removed, and version
+    if per_round.last() == Some(&0) {
+        let dump = |w: &World| -> Vec<(String, String, Option<(String, i32)>)> {
+            let m = w.dbs.map.read().unwrap(); let mut out = vec![];
+            for (dn, db) in m.iter() { if dn == "$admin" { continue; } let mm = db.map.read().unwrap(); for (k, e) in mm.iter() {
+                if k == "$connections" { continue; }
+                out.push((dn.clone(), k.clone(), if e.state == ValueStatus::Deleted { None } else { Some((e.value.clone(), e.version)) })); } }
+            out.retain(|x| x.2.is_some()); out.sort(); out };
+        let (a, b) = (dump(&pw), dump(&sw));
+        let names = |d: &Vec<(String, String, Option<(String, i32)>)>| -> Vec<(String, String)> { d.iter().map(|x| (x.0.clone(), x.1.clone())).collect() };
+        let vals = |d: &Vec<(String, String, Option<(String, i32)>)>| -> Vec<(String, String, String)> { d.iter().map(|x| (x.0.clone(), x.1.clone(), x.2.clone().unwrap().0)).collect() };
+        if std::env::var("VERIF_TRACE").is_ok() && a != b { eprintln!("P: {:?}\nS: {:?}", a, b); }
+        chk(&mut v, "C04.nodes-agree-on-live-keys", names(&a) == names(&b));
+        if names(&a) == names(&b) { chk(&mut v, "C04.nodes-agree-on-values", vals(&a) == vals(&b)); }
+        if vals(&a) == vals(&b) {
+            // conflict notices ($conflicts_<key>_<id>) are judged under a label of their own: a resolution reaches a secondary twice (the resolve line and the notice's own write line)
+            let plain = |d: &Vec<(String, String, Option<(String, i32)>)>| -> Vec<(String, String, Option<(String, i32)>)> { d.iter().filter(|x| !x.1.starts_with("$conflicts_")).cloned().collect() };
+            chk(&mut v, "C04.nodes-agree-on-versions", plain(&a) == plain(&b));
+            chk(&mut v, "C04.conflict-notices-agree-on-versions", a == b || plain(&a) != plain(&b));
         }
     }
     Oplog::clean_op_log_metadata_files();
@@ -2365,7 +2393,7 @@ fn family_props(fam: &str) -> &'static [&'static str] {
         "store" => &["C01", "C02", "C03", "C08"], "strategy" => &["C02", "C13", "C19"], "pending" => &["C15"], "ids" => &["C16"], "keymap" => &["C16"],
         "oplog" => &["C05", "C12"], "session" => &["C01", "C08", "C09"], "permchange" => &["C09"], "arbiter" => &["C06", "C13"], "watch" => &["C03"], "lines" => &[], "flood" => &[],
         "connections" => &["C17"], "snapshot" => &["C01", "C02", "C06", "C19"], "resync" => &["C05"], "election" => &["C07"], "http" => &["C20"], "httpserver" => &["C08", "C09", "C17", "C20"], "tcpserver" => &["C03", "C17"], "race" => &["C01", "C02"], "oplogdisk" => &["C16"], "wsserver" => &["C03", "C17", "C20"],
-        "values" => &["C01", "C03"], "forward" => &["C08", "C09"], "resub" => &["C03"], "logthread" => &["C05", "C12", "C15"], "logroll" => &["C12"], "linktag" => &["C07"], "replica" => &["C02", "C05", "C19"], "traffic" => &["C14", "C05", "C02", "C13", "C19"],
+        "values" => &["C01", "C03"], "forward" => &["C08", "C09"], "resub" => &["C03"], "logthread" => &["C05", "C12", "C15"], "logroll" => &["C12"], "linktag" => &["C07"], "replica" => &["C02", "C04", "C05", "C19"], "traffic" => &["C14", "C05", "C02", "C13", "C19", "C04"],
         _ => &[],
     }
 }
